@@ -272,6 +272,41 @@ theorem negative_digit_comp_correct_weak {E : Env} {r : Nat} (h : EnvRadix E r) 
   exact negativeDigitComp_correct_weak lay hden hdbg (show r = 2 * (r / 2) by omega) Th T2 hM fp hm1 hm2 hp2 hfe
     he he' _ _ rfl rfl hfin hlo hhi hg.1 hg.2
 
+/-- `roundedDown` of an estimate below the underflow cut is `+0` -/
+theorem roundedDown_tiny {F : FTy} {p eb : Nat} (lay : Layout F p eb) (fp : ExtendedFloat80) (hm2 : fp.mant < 2 ^ 64)
+    (hp2 : -fp.exp + 1 > 64) : roundedDown F fp = 0 := by
+  unfold roundedDown
+  rw [round_roundDown F fp hm2, round_tiny lay fp.mant fp.exp _ hm2 hp2, upOf_false]
+  exact LexVerif.Proof.BinaryCorrect.ext_zero lay
+
+/-- **(c) for every estimate**, weak-bracket form, **no lower bound on the estimate's exponent**: above the underflow
+cut as `negative_digit_comp_correct_weak`; below it (`−exp + 1 > 64`, where `shared::round` clamps the shift to 64)
+`b = +0`, `b + h` is half the least subnormal and the result is `0` or the least subnormal accordingly -/
+theorem negative_digit_comp_correct_all {E : Env} {r : Nat} (h : EnvRadix E r) {F : FTy} {p eb : Nat}
+    (lay : Layout F p eb) (hden : F.C.denormalExponent = 1 - F.C.exponentBias)
+    {M : Nat} (hM : M ≠ 0) (fp : ExtendedFloat80) (hm1 : 2 ^ 63 ≤ fp.mant) (hm2 : fp.mant < 2 ^ 64)
+    (hfe : fp.exp < 2 ^ 20) {e : Int} (he : e < 0) (he' : -(2 ^ 28 : Int) < e)
+    (hfin : roundedDown F fp < F.fmt.infBits) (hbr : WeakBracket F fp M (r ^ (-e).toNat))
+    (hg : NegGuard E F p r M fp e) :
+    ∃ res, negativeDigitComp E F r M fp e = some res ∧ 0 ≤ res.exp ∧
+      extendedToFloat F res = roundNE F.fmt M (r ^ (-e).toNat) := by
+  by_cases hp2 : -fp.exp + 1 ≤ 64
+  · exact negative_digit_comp_correct_weak h lay hden hM fp hm1 hm2 hp2 hfe he he' hfin hbr hg
+  · obtain ⟨hr2, hev, hdbg, _⟩ := envRadix_facts h
+    obtain ⟨_, Th, T2⟩ := bigPowOk_of_envRadix h
+    have hp := lay.hp; have hp64 := lay.hp64; have heb := lay.heb
+    have hk0 : (fp.exp + 64 - p - 1).toNat = 0 := by omega
+    have hq0 : fp.mant / 2 ^ shiftOf p fp.exp = 0 := by
+      apply Nat.div_eq_of_lt
+      have hs : 64 ≤ shiftOf p fp.exp := by unfold shiftOf; split <;> omega
+      exact Nat.lt_of_lt_of_le hm2 (Nat.pow_le_pow_right (by decide) hs)
+    unfold NegGuard at hg
+    rw [hk0, hq0] at hg
+    obtain ⟨_, hhi⟩ := hbr
+    rw [roundedDown_tiny lay fp hm2 (by omega)] at hhi
+    exact negativeDigitComp_tiny_weak lay hden hdbg (show r = 2 * (r / 2) by omega) Th T2 hM fp hm2 (by omega) he he'
+      (by simpa using hhi) hg.1 hg.2
+
 /-! ## (d) `slow_radix` -/
 
 /-- the exponent `digit_comp` gives the big mantissa: leading digit at `radix^sciExp`, `c` digits -/
@@ -293,7 +328,7 @@ theorem slow_radix_correct {E : Env} {r : Nat} (h : EnvRadix E r) {F : FTy} {p e
         r ^ (digitExponent (scientificExponent r n.mantissa n.exponent) (mantissaOf r d (sigBytes n.integer n.fraction)).2).toNat <
         2 ^ (64 * E.L.bigintLimbs))
     (hneg : digitExponent (scientificExponent r n.mantissa n.exponent) (mantissaOf r d (sigBytes n.integer n.fraction)).2 < 0 →
-      2 ^ 63 ≤ fp.mant ∧ fp.mant < 2 ^ 64 ∧ -fp.exp + 1 ≤ 64 ∧ fp.exp < 2 ^ 20 ∧ roundedDown F fp < F.fmt.infBits ∧
+      2 ^ 63 ≤ fp.mant ∧ fp.mant < 2 ^ 64 ∧ fp.exp < 2 ^ 20 ∧ roundedDown F fp < F.fmt.infBits ∧
       WeakBracket F fp (mantissaOf r d (sigBytes n.integer n.fraction)).1
         (r ^ (-digitExponent (scientificExponent r n.mantissa n.exponent) (mantissaOf r d (sigBytes n.integer n.fraction)).2).toNat) ∧
       NegGuard E F p r (mantissaOf r d (sigBytes n.integer n.fraction)).1 fp
@@ -351,8 +386,8 @@ theorem slow_radix_correct {E : Env} {r : Nat} (h : EnvRadix E r) {F : FTy} {p e
   · rw [if_pos he, if_pos he]
     exact positive_digit_comp_correct h hF hMpos he (by omega) (hpos he)
   · rw [if_neg he, if_neg he]
-    obtain ⟨a1, a2, a3, a4, a5, a6, a7⟩ := hneg (by omega)
-    exact negative_digit_comp_correct_weak h lay hden hMpos fp a1 a2 a3 a4 (by omega) (by omega) a5 a6 a7
+    obtain ⟨a1, a2, a4, a5, a6, a7⟩ := hneg (by omega)
+    exact negative_digit_comp_correct_all h lay hden hMpos fp a1 a2 a4 (by omega) (by omega) a5 a6 a7
 
 /-! ## the value that is rounded -/
 
@@ -451,7 +486,7 @@ def slow_radix_correct_full : Prop :=
         r ^ (digitExponent (scientificExponent r n.mantissa n.exponent) (mantissaOf r d (sigBytes n.integer n.fraction)).2).toNat <
         2 ^ (64 * E.L.bigintLimbs)) →
     (digitExponent (scientificExponent r n.mantissa n.exponent) (mantissaOf r d (sigBytes n.integer n.fraction)).2 < 0 →
-      2 ^ 63 ≤ fp.mant ∧ fp.mant < 2 ^ 64 ∧ -fp.exp + 1 ≤ 64 ∧ fp.exp < 2 ^ 20 ∧ roundedDown F fp < F.fmt.infBits ∧
+      2 ^ 63 ≤ fp.mant ∧ fp.mant < 2 ^ 64 ∧ fp.exp < 2 ^ 20 ∧ roundedDown F fp < F.fmt.infBits ∧
       WeakBracket F fp (mantissaOf r d (sigBytes n.integer n.fraction)).1
         (r ^ (-digitExponent (scientificExponent r n.mantissa n.exponent) (mantissaOf r d (sigBytes n.integer n.fraction)).2).toNat) ∧
       NegGuard E F p r (mantissaOf r d (sigBytes n.integer n.fraction)).1 fp
